@@ -67,6 +67,10 @@ def gen_secret(rng, cls, plain_alpha=False, allow_all_digit_type7=False, reserve
                 plain = plain[:j] + rng.choice("\xe9\xfc\xdf\xf1\xa3") + plain[j:]
             s = decoders.type7_encode(plain, rng.randint(0, 15))
             has_letter = re.search(r"[A-F]", s) is not None
+            if has_letter and rng.random() < 0.15:
+                # devices print upper case, but pasted / hand-edited configurations carry lower-case hex digits too
+                s = s.lower() if rng.random() < 0.6 else "".join(c.lower() if rng.random() < 0.5 else c for c in s)
+                return {"cls": cls, "text": s, "cores": [s, s[2:]], "plain": plain, "sub": "letter-lowercase"}
             if has_letter:
                 return {"cls": cls, "text": s, "cores": [s, s[2:]], "plain": plain, "sub": "letter"}
             if allow_all_digit_type7:
